@@ -61,9 +61,11 @@ LAYERS_Q = [
     ('conv', 2, 1, (1, 1), (1, 1), (0, 0), False, 2, 2), ('conv', 1, 2, (1, 2), (1, 1), (0, 0), False, 2, 2),
 ]
 LAYERS_T = LAYERS_Q + [
-    ('linear', 3, 2, True), ('linear', 3, 3, True), ('linear', 1, 3, True),
+    ('linear', 3, 2, True), ('linear', 3, 3, True), ('linear', 1, 3, True), ('linear', 4, 2, False), ('linear', 4, 3, True),
+    ('linear', 2, 4, True), ('linear', 4, 4, False),
     ('conv', 1, 1, (2, 2), (1, 1), (0, 0), False, 3, 3), ('conv', 2, 2, (1, 1), (1, 1), (0, 0), True, 2, 2),
-    ('conv', 1, 2, (2, 2), (1, 1), (0, 0), False, 3, 3),
+    ('conv', 1, 2, (2, 2), (1, 1), (0, 0), False, 3, 3), ('conv', 2, 2, (2, 1), (1, 1), (0, 0), True, 3, 2),
+    ('conv', 1, 3, (2, 2), (1, 1), (0, 0), True, 3, 3),
 ]
 
 
@@ -104,7 +106,7 @@ class C01(Prop):
                 for clip in (False, True):
                     if clip and big > (6 if tier == 'quick' else 9):
                         continue
-                    if method == 'inverse' and big > (9 if tier == 'quick' else 12):
+                    if method == 'inverse' and big > (9 if tier == 'quick' else 16):
                         continue
                     for gdt in ('fp32', 'fp16'):
                         if gdt == 'fp16' and (clip or big > 4):
